@@ -50,6 +50,66 @@ def load (env : Env) (L : Leaves) : Val → R Val
     else .ok (.member c i)
   | v => .ok v
 
+/-- The integer a value is numerically equal to, for the classes whose `==` with an `int` the model
+    can decide: bool, int, integral float reprs, integral fractions, int-mixin enum members. -/
+def intVal? (env : Env) : Val → Option Int
+  | .bool b => some (if b then 1 else 0)
+  | .int i => some i
+  | .frac n d => if d == 1 then some n else none
+  | .float r =>
+    -- "123.0" / "-0.0"
+    let (neg, body) := match r with
+      | '-' :: b => (true, b)
+      | b => (false, b)
+    let ip := body.takeWhile (fun c => '0' ≤ c && c ≤ '9')
+    if !ip.isEmpty && body.drop ip.length == ['.', '0'] then
+      let n : Int := ip.foldl (fun a c => a * 10 + (c.toNat - '0'.toNat)) (0 : Nat)
+      some (if neg then -n else n)
+    else none
+  | .member c i =>
+    match env.cls c with
+    | some ci =>
+      if ci.mixin == .int then
+        match (ci.members[i]?).map Prod.snd with
+        | some (.int v) => some v
+        | _ => none
+      else none
+    | none => none
+  | _ => none
+
+/-- Python `==` between a `Literal` / enum-value primitive `w` (None, bool, int or str) and an
+    arbitrary value `v`; `none` where the model cannot decide it (Decimal against an int). -/
+def pyEq? (env : Env) (w v : Val) : Option Bool :=
+  match w with
+  | .none => some (v == .none)
+  | .str s =>
+    match v with
+    | .str t => some (s == t)
+    | .member c i =>
+      if isStrMixin env c then
+        match memberValue env c i with
+        | some (.str t) => some (s == t)
+        | _ => none
+      else some false
+    | _ => some false
+  | .bool _ | .int _ =>
+    match v with
+    | .dec _ => none
+    | _ =>
+      match intVal? env w, intVal? env v with
+      | some a, some b => some (a == b)
+      | _, _ => some false
+  | _ => none
+
+/-- `v in values` of the `Literal` routines (tuple membership is by `==`). -/
+def pyMem? (env : Env) (v : Val) : List Val → Option Bool
+  | [] => some false
+  | w :: ws =>
+    match pyEq? env w v with
+    | none => none
+    | some true => some true
+    | some false => pyMem? env v ws
+
 def isPrivate (n : Str) : Bool :=
   match n with
   | '_' :: _ => true
@@ -83,9 +143,11 @@ def itervalues (env : Env) : Val → R (List Val)
       match memberValue env c i with
       | some (.str s) => .ok (chars s)
       | _ => .error .unsupported
-    else .ok []          -- `vars(member)` holds private names only
+    else .error .unsupported   -- fields from the signature of `Enum.__call__`: ('value', …) then AttributeError
   | .opaque _ => .ok []  -- `vars(obj)` of an attribute-less instance
-  | .none | .bool _ | .int _ | .float _ | .dec _ | .frac _ _ | .path _ | .pattern _
+  | .frac n d => .ok [.int n, .int d]     -- the constructor's parameters are attributes
+  | .float _ | .dec _ | .path _ => .error .attribute   -- constructor parameter names are not attributes
+  | .none | .bool _ | .int _ | .pattern _
   | .date _ | .datetime _ _ | .time _ _ | .timedelta _ => .error .type   -- `vars(x)` raises TypeError
   | .text _ _ | .uuid _ => .error .unsupported
 
@@ -162,9 +224,11 @@ def iteritems (env : Env) : Val → R (List Item)
       match memberValue env c i with
       | some (.str s) => .ok ((enumerateFrom 0 (chars s)).map .ok)
       | _ => .error .unsupported
-    else .ok []
+    else .error .unsupported
   | .opaque _ => .ok []
-  | .none | .bool _ | .int _ | .float _ | .dec _ | .frac _ _ | .path _ | .pattern _
+  | .frac n d => .ok [.ok (.str "numerator".toList, .int n), .ok (.str "denominator".toList, .int d)]
+  | .float _ | .dec _ | .path _ => .error .attribute
+  | .none | .bool _ | .int _ | .pattern _
   | .date _ | .datetime _ _ | .time _ _ | .timedelta _ => .error .type
   | .text _ _ | .uuid _ => .error .unsupported
 
